@@ -63,6 +63,7 @@ type c15Q struct {
 	Tree     string
 	NS       []string
 	Max, Min map[string]int64
+	Force    bool                   // carries allow-force-update=true: the min-sum clauses are waived for requests about it, nothing else is
 	obj      *v1alpha1.ElasticQuota // the admitted API object (old object of later update/delete requests)
 }
 
@@ -81,7 +82,8 @@ func c15RLInts(rl corev1.ResourceList) map[string]int64 {
 // (no helper of the code under check is used).
 func c15Parse(o *v1alpha1.ElasticQuota) *c15Q {
 	q := &c15Q{Parent: o.Labels[extension.LabelQuotaParent], IsParent: o.Labels[extension.LabelQuotaIsParent] == "true",
-		Tree: o.Labels[extension.LabelQuotaTreeID], Max: c15RLInts(o.Spec.Max), Min: c15RLInts(o.Spec.Min)}
+		Tree: o.Labels[extension.LabelQuotaTreeID], Max: c15RLInts(o.Spec.Max), Min: c15RLInts(o.Spec.Min),
+		Force: o.Labels[extension.LabelAllowForceUpdate] == "true"}
 	if q.Parent == "" {
 		q.Parent = c15Root
 	}
@@ -101,7 +103,7 @@ func c15Ints(m map[string]int64) string {
 }
 
 func (q *c15Q) canon() string {
-	return fmt.Sprintf("p=%s ip=%v t=%s ns=%v max{%s} min{%s}", q.Parent, q.IsParent, q.Tree, q.NS, c15Ints(q.Max), c15Ints(q.Min))
+	return fmt.Sprintf("p=%s ip=%v t=%s ns=%v max{%s} min{%s} f=%v", q.Parent, q.IsParent, q.Tree, q.NS, c15Ints(q.Max), c15Ints(q.Min), q.Force)
 }
 
 type c15Break struct{ Clause, Subject, Detail string }
@@ -182,7 +184,17 @@ func c15WellFormed(ref map[string]*c15Q, gateOn bool) []c15Break {
 		}
 	}
 	// the children's mins sum to at most the (non-root) parent's min; an undeclared dimension counts as 0
+	forced := map[string]bool{} // parents whose children's-sum clause is waived: the parent or one of its children carries the label
+	for _, n := range names {
+		if ref[n].Force {
+			forced[n] = true
+			forced[ref[n].Parent] = true
+		}
+	}
 	for _, p := range mc.SortedKeys(childSum) {
+		if forced[p] {
+			continue
+		}
 		for _, k := range mc.SortedKeys(childSum[p]) {
 			if childSum[p][k] > ref[p].Min[k] {
 				out = append(out, c15Break{"children-min-sum", p, fmt.Sprintf("%s: children %d > parent %d", k, childSum[p][k], ref[p].Min[k])})
@@ -246,6 +258,7 @@ type c15Cfg struct {
 	depth   int
 	share   float64 // cap on the part's slice of the unit's time budget (1 = all that is left)
 	rich    bool    // include the content-carrying create profiles
+	force   bool    // the alphabet also sets / removes the allow-force-update label (it waives the min-sum clauses ONLY: seed C15-5)
 	keys    bool    // the key-set alphabet: two-dimensional max, mins with zero-valued and dropped dimensions (c15BuildKeyOps)
 	perms   []map[string]string
 }
@@ -346,6 +359,13 @@ func c15BuildOps(cfg c15Cfg) []c15Op {
 			ops = append(ops, c15Op{Kind: "update", Name: n, Field: "min", C: c15Content{Min: m}, label: fmt.Sprintf("update %s min{%s}", n, c15Ints(m))})
 		}
 	}
+	if cfg.force {
+		for _, n := range cfg.names {
+			for _, f := range []bool{true, false} {
+				ops = append(ops, c15Op{Kind: "update", Name: n, Field: "force", C: c15Content{IsParent: f}, label: fmt.Sprintf("update %s allow-force-update=%v", n, f)})
+			}
+		}
+	}
 	for _, n := range cfg.names {
 		ops = append(ops, c15Op{Kind: "delete", Name: n, label: "delete " + n})
 	}
@@ -408,6 +428,12 @@ func c15Modify(o *v1alpha1.ElasticQuota, op c15Op) {
 			o.Labels[extension.LabelQuotaParent] = c15Root
 		} else {
 			o.Labels[extension.LabelQuotaParent] = op.Parent
+		}
+	case "force":
+		if op.C.IsParent { // (the content's boolean is reused as the label's value)
+			o.Labels[extension.LabelAllowForceUpdate] = "true"
+		} else {
+			delete(o.Labels, extension.LabelAllowForceUpdate)
 		}
 	case "isparent":
 		if op.C.IsParent {
@@ -876,6 +902,9 @@ func c15RefStringRn(ref map[string]*c15Q, rn map[string]string) string {
 		sb.WriteString(c15Ints(q.Max))
 		sb.WriteString("} min{")
 		sb.WriteString(c15Ints(q.Min))
+		if q.Force {
+			sb.WriteString("} force")
+		}
 		sb.WriteString("}} ")
 	}
 	return sb.String()
@@ -924,6 +953,7 @@ func c15Configs(env *mc.Env) []c15Cfg {
 	if env.Thorough() {
 		return []c15Cfg{
 			{part: "hist-keys", names: abc, parents: []string{"a", "b", "c"}, depth: 7, share: 0.15, keys: true},
+			{part: "hist-force", names: abc, parents: []string{"a", "b", "c", "missing"}, depth: 7, share: 0.25, force: true, rich: true},
 			{part: "hist-pod-on-a", names: ab, parents: []string{"a", "b", "missing"}, podOn: "a", depth: 8, share: 0.2, rich: true},
 			{part: "hist-gate-updatekey", names: abc, parents: []string{"a", "b", "c", "missing"}, gateOn: true, depth: 7, share: 0.3, rich: true},
 			{part: "hist-3names", names: abc, parents: []string{"a", "b", "c", "missing"}, depth: 7, share: 1, rich: true},
@@ -931,6 +961,7 @@ func c15Configs(env *mc.Env) []c15Cfg {
 	}
 	return []c15Cfg{
 		{part: "hist-keys", names: ab, parents: []string{"a", "b"}, depth: 6, share: 0.2, keys: true},
+		{part: "hist-force", names: abc, parents: []string{"a", "b", "c", "missing"}, depth: 5, share: 0.35, force: true},
 		{part: "hist-pod-on-a", names: ab, parents: []string{"a", "b", "missing"}, podOn: "a", depth: 5, share: 0.3, rich: true},
 		{part: "hist-gate-updatekey", names: ab, parents: []string{"a", "b", "missing"}, gateOn: true, depth: 5, share: 0.25, rich: true},
 		{part: "hist-3names", names: abc, parents: []string{"a", "b", "c", "missing"}, depth: 5, share: 1, rich: true},
@@ -987,7 +1018,7 @@ func TestVerifC15Hist(t *testing.T) {
 		res.Assumptions = []string{
 			"every request the webhook accepts is persisted by the API server and every rejected one is not; update/delete of a non-existent quota never reach admission (404), create of an existing name does and is never persisted",
 			"one webhook replica; the informer echo (OnQuotaAdd/Update/Delete) of an admitted write arrives later than the next request and is not modelled",
-			"escape hatches that waive clauses by design are outside the alphabet: allow-force-update and is-root (tree root) labels; ElasticQuotaGuaranteeUsage gate off (default)",
+			"escape hatches: the allow-force-update label is in the alphabet of part hist-force and waives ONLY the children-min-sum clause of the sibling sets it touches (every structural clause stays demanded of a labelled quota); the is-root (tree root) label is outside the alphabet; ElasticQuotaGuaranteeUsage gate off (default)",
 			"an update request changes one field group (parent | is-parent | tree id | namespaces | max | min) of the stored object, or the namespaces together with min / with the parent",
 			"the pod set is fixed per part; the pod is labelled with the quota name and lives in a namespace no quota binds ('quota with pods' = pods carrying the quota's name label, which is what a pod of a leaf quota looks like)",
 		}
